@@ -81,6 +81,8 @@ type Conn struct {
 
 	Local, Remote net.Addr
 	NoRemoteAddr  bool // RemoteAddr() returns nil
+	// SetReadDeadlineDelay: a call of SetReadDeadline takes this long to take effect
+	SetReadDeadlineDelay time.Duration
 
 	// NonAtomic makes a Write call visible in chunks of ChunkSize bytes without
 	// holding the transport's write lock in between: concurrent Write calls
@@ -427,6 +429,9 @@ func (c *Conn) SetDeadline(t time.Time) error { return nil }
 
 // SetReadDeadline is honoured by Read (virtual time inside a synctest bubble).
 func (c *Conn) SetReadDeadline(t time.Time) error {
+	if d := c.SetReadDeadlineDelay; d > 0 {
+		time.Sleep(d) // the deadline armed before stays in force meanwhile, and may expire
+	}
 	c.mu.Lock()
 	c.rdl = t
 	if c.rdlTimer != nil {
